@@ -180,13 +180,14 @@ ValuesOver(K) ==
     {s \in {[live |-> l, tomb |-> t] : l \in SUBSET (K \X Vals), t \in SUBSET K} : Keys(s.live) \cap s.tomb = {}}
 LawScripts == {<<[op |-> "law", a |-> t[1], b |-> t[2], c |-> t[3]]>> :
                   t \in ValuesOver(LawItems) \X ValuesOver(LawItems) \X ValuesOver(LawItems)}
+PairLawScripts == {<<[op |-> "law", a |-> a, b |-> b, c |-> Empty]>> : a \in WellFormed, b \in WellFormed}
 OrdScripts == {<<[op |-> "ord", a |-> a, b |-> b]>> : a \in WellFormed, b \in WellFormed}
 
 GenInit ==
     /\ MInit(NRep)
     /\ st = [r \in 1..NRep |-> Empty]
     /\ implbad = {}
-    /\ script \in (Histories \cup PairScripts \cup LawScripts \cup OrdScripts)
+    /\ script \in (Histories \cup PairScripts \cup LawScripts \cup PairLawScripts \cup OrdScripts)
     /\ hist = <<>>
 
 Step ==
